@@ -17,6 +17,7 @@ UNIT = dict(
         "Retry::call@Service": dict(rules=[
             # the loop invariant below speaks about the local that holds the instance observed ready
             ("R22", r"let\s+mut\s+(\w+)\s*=\s*std::mem::replace\(\s*&mut\s+self\.inner\s*,", "service"),
+            ("sub", "R6-ready", r"futures::future::poll_fn\(\|cx\| (\w+)\.poll_ready\(cx\)\)\s*\.await", r"\1.vx_ready(Tracked(tr))", -1),
             ("R4",), ("R3",),
             ("sub", "R9-paths", r"tokio::time::sleep", "sleep", 1),
             ("sub", "literal-types", r"let mut attempt = 0;", "let mut attempt: usize = 0;", 1),
@@ -30,7 +31,8 @@ UNIT = dict(
                     attempt > 0 ==> tr.slept_since_done >= backoff_spec(*config.policy.interval_fn, (attempt - 1) as usize).nanos,   // #waits_at_least_the_backoff_before_each_retry [C05]
                     attempt > 0 && config.budget is Some ==> tr.granted_since_done,   // #every_retry_was_granted_by_the_budget [C05]
                     !tr.denied,   // #no_attempt_after_the_budget_refused [C05]
-                    attempt == 0 ==> service.ready@,   // #first_attempt_on_the_instance_observed_ready [C20]
+                    service.ready@,   // #every_attempt_on_an_instance_observed_ready [C20]
+                    tr.ready_err is None,
                     forall|i: int| 0 <= i < tr.reqs.len() ==> tr.reqs[i] == req,   // #every_attempt_carries_the_request [C05,C20]
                     config.policy.retry_predicate is Some ==> forall|e: &E| call_requires(config.policy.retry_predicate->0, (e,)),
                     config.policy.retry_predicate is Some ==> forall|e: &E, a: bool, b: bool| call_ensures(config.policy.retry_predicate->0, (e,), a) && call_ensures(config.policy.retry_predicate->0, (e,), b) ==> a == b,
